@@ -36,7 +36,7 @@ func runThorough(c *Ctx, id string, extra map[string]interface{}) {
 			continue
 		}
 		vc.Property = id
-		registry[id](vc)
+		evaluate(vc, id)
 		for _, m := range vc.Machine {
 			c.Machinef("variant %s: %s", v.name, m)
 		}
